@@ -12,7 +12,7 @@ def main():
     try:
         import resource
         # astronomically large allocations fail at once (MemoryError) instead of thrashing the machine
-        resource.setrlimit(resource.RLIMIT_AS, (6 << 30, 6 << 30))
+        resource.setrlimit(resource.RLIMIT_AS, (3 << 30, 3 << 30))
     except (ImportError, ValueError, OSError):
         pass
     sys.path.insert(0, os.path.dirname(os.path.dirname(os.path.abspath(__file__))))
